@@ -121,6 +121,21 @@ def gfm_renderer():
     return md.renderer
 
 
+def gfm_doctree(source):
+    """the whole pipeline in gfm_only mode (the linkify rule is switched off: linkify-it-py is not installed here)"""
+    from myst_parser.config.main import MdParserConfig
+    from myst_parser.mdit_to_docutils.base import DocutilsRenderer, make_document
+    from myst_parser.parsers.docutils_ import Parser
+    from myst_parser.parsers.mdit import create_md_parser
+    md = create_md_parser(MdParserConfig(gfm_only=True), DocutilsRenderer)
+    md.disable("linkify")
+    md.options["linkify"] = False
+    document = make_document(parser_cls=Parser)
+    md.options["document"] = document
+    md.render(source)
+    return document
+
+
 def sym_text(syms, name, other="span"):
     return "".join({"S": name, "s": other}.get(s, s) for s in syms)
 
@@ -250,6 +265,9 @@ def run(ctx):
           # character references are Markdown's to decode, after the conversion: the directive gets them as written
           ('<div class="admonition">\n<p class="title">T &lt;i&gt; &amp;amp;</p>\nB &#42;x&#42; &amp;lt;b&amp;gt; &copy; end\n</div>\n',
            "```{admonition} T &lt;i&gt; &amp;amp;\n:class: admonition\nB &#42;x&#42; &amp;lt;b&amp;gt; &copy; end\n```\n", ["html_admonition"]),
+          # white space between two inline elements inside a paragraph of the body
+          ('<div class="admonition">\n<p class="title">Keys</p>\n<p>Press <kbd>Ctrl</kbd> <kbd>C</kbd> then <em>a</em> <em>b</em></p>\n</div>\n',
+           "```{admonition} Keys\n:class: admonition\nPress <kbd>Ctrl</kbd> <kbd>C</kbd> then <em>a</em> <em>b</em>\n```\n", ["html_admonition"]),
           ('<div class="admonition">\n<p class="title">T &lt;i&gt; and &amp;amp;</p>\nB &#42;x&#42; then &amp;lt;b&amp;gt; and &copy; end\n</div>\n',
            "```{admonition} T &lt;i&gt; and &amp;amp;\n:class: admonition\nB &#42;x&#42; then &amp;lt;b&amp;gt; and &copy; end\n```\n", ["html_admonition"])]
     for h, dsp, exts in eq:
@@ -332,6 +350,31 @@ def run(ctx):
         if got != "&lt;" + text[1:]:
             ctx.violation(f"gfm_only: {text!r} must be neutralised, observed {got!r}", {"leg": "R-filter", "html": text})
     ctx.leg("R-filter", strings=nfil)
+    # the same rule wherever the tag stands: inline HTML in a paragraph / a table cell, through the whole GFM pipeline
+    # (Neutralised: no "<" "/"? disallowed-name delimiter survives in any raw node)
+    ninl = 0
+    import re as _re
+    dis = _re.compile(r"</?(" + "|".join(DISALLOWED) + r")(?=[\t\n\f\r />])", _re.I)
+    for k, name in enumerate(DISALLOWED + [d.upper() for d in DISALLOWED[:3]]):
+        forms = [f"<{name}>x</{name}>", f"<{name} a=\"1\">", f"</{name}>", f"<{name}/>"]
+        src = (f"<{name}>block{k}</{name}>\n\nHello {forms[k % 4]} world and {forms[(k + 1) % 4]} <em>fine</em>.\n\n"
+               f"| a | b |\n|---|---|\n| {forms[(k + 2) % 4]} cell | <b>ok</b> |\n")
+        ninl += 1
+        ctx.count(("filter-inline", name))
+        ctx.traces_validated += 1
+        case = {"leg": "R-filter-inline", "markdown": src, "gfm_only": True}
+        try:
+            doc = gfm_doctree(src)
+        except Exception as e:  # noqa: BLE001
+            ctx.violation(f"GFM pipeline raised {type(e).__name__}: {e}", case)
+            continue
+        raws = [n_.astext() for n_ in doc.findall(nodes.raw) if n_.get("format") == "html"]
+        leaked = [t for t in raws if dis.search(t)]
+        if leaked:
+            ctx.violation(f"GFM mode: disallowed raw HTML reaches the output un-neutralised: {leaked[:3]}", case)
+        elif not any("&lt;" in t for t in raws):
+            ctx.violation("GFM mode: the disallowed tags were not neutralised but removed or altered otherwise", case)
+    ctx.leg("R-filter-inline", documents=ninl)
     mid = rf.records[len(rf.records) // 2]
     ctx.sample({"filter_symbols": mid["val"], "html": sym_text(mid["val"], "script"), "expected": sym_text(mid["out"], "script")})
 
